@@ -229,8 +229,15 @@ def check(an: Analysis) -> None:
                         return None
                     nxt.append(e.body if t else e.orelse)
                     changed = True
+                elif isinstance(e, ast.Call) and isinstance(e.func, ast.Attribute) and e.func.attr == "join" and isinstance(e.func.value, ast.Constant) and len(e.args) == 1:
+                    nxt.append(e.args[0])  # "<sep>".join(<parts>)
+                    changed = True
                 elif isinstance(e, ast.Name) and di.owner(e.id) is not None and sc.values_of(e.id):
                     nxt.extend(sc.values_of(e.id))
+                    # a list of parts that is filled step by step: what the reachable append / extend calls add
+                    for n_ in gi_.nodes:
+                        if n_.kind == "call" and n_.id in sc.reach and isinstance(n_.ast.func, ast.Attribute) and n_.ast.func.attr in ("append", "extend", "insert") and is_name(n_.ast.func.value, e.id):  # type: ignore[union-attr]
+                            nxt.extend(n_.ast.args)  # type: ignore[union-attr]
                     changed = True
                 else:
                     nxt.append(e)
